@@ -717,7 +717,24 @@ def _r5_r6_refinement(run):
     if c1 is not None and c2 is not None:
         s1, s2 = show(c1), show(c2)
         ok = "#1" in s1 and "#0" in s2 and "#0" not in s1 and "#1" not in s2
+        # ... from the outer edge of the first pixel (FITS coordinate 1/2) to the outer edge of the last one (n + 1/2): the
+        # footprint is the area of the pixels, and tile pixel centres that land in the outer half-pixel rim are sampled
+        short = None
         if ok:
+            shp = ("attr", ("attr", ("sym", "self"), "_image"), "shape")
+            for cc, k in ((c1, 1), (c2, 0)):
+                ctor_ = cc[2] if cc[0] == "new" else cc
+                lo_, hi_ = ctor_[2][0], ctor_[2][1]
+                lo_v = num_value(lo_)
+                hi_v = num_value(sym.sub(hi_, ("item", shp, k)))
+                if lo_v is None or hi_v is None:
+                    continue
+                if lo_v > sym.Fr(1, 2) or hi_v < sym.Fr(1, 2):
+                    short = (k, show(lo_), show(hi_))
+        if ok and short:
+            run.violated("C07.R6", ib, None, "the coarse grid along shape[%d] spans %s .. %s: it stops short of the outer pixel edges (1/2 .. n + 1/2), so the bounds cover "
+                         "the pixel centres only and miss the half-pixel rim of the image, where tile pixel centres are still sampled" % short, kind="coarse-extent")
+        elif ok:
             run.holds("C07.R6", ib, None, "coarse axis 1 spans 0.5..naxis1+0.5 (shape[1]), axis 2 spans shape[0]")
         else:
             run.violated("C07.R6", ib, None, "coarse index arrays span %s / %s; expected axis 1 over shape[1] and axis 2 over shape[0]" % (s1[:80], s2[:80]),
